@@ -484,7 +484,7 @@ theorem finish_writes (fl : Faults) (live1 : List Key) (a : Auth) (cand : List K
 
 /-- what a run does when there is no (usable) response: the prepared state. -/
 theorem autoTA_none (P : Params) (cfg : List Key) (d : Disk) (live : List Key)
-    (fl : Faults) (now : Nat) (tomb0 : List Nat) (hrt : readTomb P d fl = .ok tomb0) :
+    (fl : Faults) (now : Nat) (tomb0 : List Nat) (hrt : readTomb d fl = .ok tomb0) :
     autoTA P cfg d live none fl now =
       { live := if !live.isEmpty then candidate (prepare cfg (readState d live fl now) tomb0 now).1 else live,
         outcome := .verr,
@@ -502,14 +502,14 @@ theorem autoTA_inv (P : Params) (cfg : List Key) (d : Disk) (live : List Key) (f
       (autoTA P cfg d live f fl now).auth = .none ∧
       ((autoTA P cfg d live f fl now).live = [] ∨
         (autoTA P cfg d live f fl now).live = (autoTA P cfg d live none fl now).live)) ∨
-    ∃ tomb0 f' a, readTomb P d fl = .ok tomb0 ∧ f = some f' ∧
+    ∃ tomb0 f' a, readTomb d fl = .ok tomb0 ∧ f = some f' ∧
       verifyFetched (candidate (prepare cfg (readState d live fl now) tomb0 now).1) f' = a ∧ a ≠ .none ∧
       autoTA P cfg d live f fl now =
         finish fl (if !live.isEmpty then candidate (prepare cfg (readState d live fl now) tomb0 now).1 else live) a
           (candidate (prepare cfg (readState d live fl now) tomb0 now).1)
           (process P f' (a == .revOnly) now (prepare cfg (readState d live fl now) tomb0 now).1
             (prepare cfg (readState d live fl now) tomb0 now).2) := by
-  cases hrt : readTomb P d fl with
+  cases hrt : readTomb d fl with
   | corrupt => left; unfold autoTA; simp [hrt]
   | ok tomb0 =>
     have hnone := autoTA_none P cfg d live fl now tomb0 hrt
@@ -1012,21 +1012,18 @@ def MarkersCovered (d : Disk) : Prop :=
   ∀ tas, d.state = .ok tas → ∀ ta ∈ tas, isMarker ta.st = true →
     d.tomb = .corrupt ∨ ∃ ms, d.tomb = .ok ms ∧ ta.key.mat ∈ ms
 
-/-- Read assumptions of the `_partial` theorems: the tombstone file is never
-"unreadable" (exists, cannot be opened, not a decode error) — unless the tree
-is the variant that fails closed on it (`P.unreadableEmpty = false`) —, and the state
-file is not lost (read fault / corruption) while it holds the only record of
-a revocation. Write faults, crashes, restarts, tombstone corruption and any
-fetched data are unrestricted. -/
-def EvOK (P : Params) (s : Sys) : Ev → Prop
-  | .run _ fl _ => (fl.tombRead = false ∨ P.unreadableEmpty = false) ∧
-      (fl.stateRead = true → MarkersCovered s.disk)
+/-- Read assumption of the `_partial` permanence theorems: the state file is
+not lost (read fault / corruption) while it holds the only record of a
+revocation. Tombstone read faults, write faults, crashes, restarts, tombstone
+corruption and any fetched data are unrestricted. -/
+def EvOK (s : Sys) : Ev → Prop
+  | .run _ fl _ => fl.stateRead = true → MarkersCovered s.disk
   | .damage .state => MarkersCovered s.disk
   | _ => True
 
 def HistOK (P : Params) (cfg : List Key) : Sys → List Ev → Prop
   | _, [] => True
-  | s, e :: es => EvOK P s e ∧ HistOK P cfg (step P cfg s e) es
+  | s, e :: es => EvOK s e ∧ HistOK P cfg (step P cfg s e) es
 
 theorem histOK_append (P : Params) (cfg : List Key) (s : Sys) (e1 e2 : List Ev) :
     HistOK P cfg s (e1 ++ e2) ↔ HistOK P cfg s e1 ∧ HistOK P cfg (runHist P cfg s e1) e2 := by
@@ -1253,7 +1250,7 @@ theorem none_live_ok (P : Params) (cfg : List Key) (g : Ghost) (d : Disk) (live 
     (hlive : ∀ k ∈ live, k ∈ cfg ∨ g.earned k = true)
     (hdisk : ∀ tas, d.state = .ok tas → ∀ ta ∈ tas, EntryOK cfg g ta) :
     ∀ k ∈ (autoTA P cfg d live none fl now).live, k ∈ cfg ∨ g.earned k = true := by
-  cases hrt : readTomb P d fl with
+  cases hrt : readTomb d fl with
   | corrupt => unfold autoTA; simp [hrt]
   | ok tomb0 =>
     rw [autoTA_none P cfg d live fl now tomb0 hrt]
